@@ -1068,6 +1068,25 @@ theorem option_dataflow_is_the_source_dataflow :
        ("self.PerformedProcedureCodeSequence", "not (performed_procedure_codes is not None)", "[]")] := by
   decide +kernel
 
+/-- **The document is filled from its own copy of the tree** (tables regenerated from `_SR.__init__` on every run, T15i; a
+trip-wire on tables, AGENT_GUIDE §3a).  The only item store of the constructor is `self[tag] = value` inside
+`for tag, value in content_item.items()`; `content_item` is `ContentItem._from_dataset_derived(content_copy)`,
+`content_copy` is `deepcopy(content)`, and `.content` (`self._content`) is `ContentSequence([content_item], is_root=True)`:
+the attributes of the data set and the items of `.content` are the SAME converted deep copy, never the caller's items
+(fix `dcb8cdc`; its inverse `C15-unfix-document-aliases-content` now breaks this theorem, too).  `deepcopy` itself (fresh
+objects, equal values) is Python's; that no item of the document `is` an item of the caller's tree, and that editing the
+caller's tree afterwards changes neither the data set nor the written file, is checked on every case by the oracle. -/
+theorem document_is_filled_from_its_own_copy :
+    Gen.srInitItemWrites = [("self[tag]", "for (tag, value) in content_item.items()", "value")] ∧
+    Gen.srInitContentLocals =
+      [("content_copy", "True", "deepcopy(content)"),
+       ("content_item", "True", "ContentItem._from_dataset_derived(content_copy)"),
+       ("tag", "True", "<loop variable of content_item.items()>"),
+       ("value", "True", "<loop variable of content_item.items()>")] ∧
+    (Gen.srInitAttrWrites.filter fun r => r.1 == "self._content") =
+      [("self._content", "True", "ContentSequence([content_item], is_root=True)")] := by
+  decide +kernel
+
 /-- non-vacuity: a verified Comprehensive 3D document with every option given; the same without organization but WITH an
 institution (refused); an unsupported transfer syntax (refused) -/
 def exOptions : Options :=
